@@ -81,7 +81,7 @@ def load_known():
     return d
 
 
-def finish(pid, tier, results, t0, trusted_base, explanation, extra_assumptions=()):
+def finish(pid, tier, results, t0, trusted_base, explanation, extra_assumptions=(), extra=None):
     """Print the report, write evidence, return exit code."""
     known = load_known()
     known_ids = {}
@@ -152,6 +152,7 @@ def finish(pid, tier, results, t0, trusted_base, explanation, extra_assumptions=
             "rules": [r.to_json() for r in results],
             "known_findings_echoed": [k.get("id") for _, k in known_hit],
             "exhaustive": False,
+            **(extra or {}),
         },
         "assumptions": list(trusted_base) + list(extra_assumptions),
         "wall_s": round(time.time() - t0, 3),
